@@ -102,6 +102,7 @@ type Explorer struct {
 	started int
 	res     *Result
 	stop    bool
+	t0      time.Time
 	abort   bool // set by the watchdog: running paths end at their next instruction
 	rng     uint64
 }
@@ -441,6 +442,7 @@ func (pr *Program) Explore(entry *ssa.Function, opts Options) *Result {
 	ex.res = &Result{Harness: entry.String(), Reached: map[string]int{}, Funcs: map[string]bool{}}
 	ex.front = [][]int{{}}
 	t0 := time.Now()
+	ex.t0 = t0
 	// memory watchdog: a run that outgrows its budget is stopped and reported, never killed by the OS
 	done := make(chan struct{})
 	go func() {
@@ -511,6 +513,13 @@ func (ex *Explorer) worker(id int) {
 			ex.cond.Wait()
 		}
 		if ex.stop || len(ex.front) == 0 {
+			ex.mu.Unlock()
+			break
+		}
+		if w := ex.opts.bound("wall_s", 0); w > 0 && time.Since(ex.t0) > time.Duration(w)*time.Second {
+			ex.res.Inconclusive = append(ex.res.Inconclusive, fmt.Sprintf("time budget %ds exhausted with %d prefixes unexplored", w, len(ex.front)))
+			ex.stop = true
+			ex.cond.Broadcast()
 			ex.mu.Unlock()
 			break
 		}
